@@ -85,7 +85,7 @@ fn signed_digests(m: &M) -> BTreeSet<D32> {
     let mut out = BTreeSet::new();
     for a in m.assertions() {
         let is_signed = match a.subject() {
-            M::Assertion(p, _) => **p == M::Known(3),
+            M::Assertion(p, _) => p.digest() == M::Known(3).digest(),
             _ => false,
         };
         if is_signed {
@@ -109,7 +109,7 @@ pub fn run(data: &[u8], ctx: &mut Ctx) -> Outcome {
     let subject_digest = model.subject().digest();
     // a generated envelope may itself carry a 'signed' assertion with a non-signature object; the
     // library documents an error for that, so for such inputs a genuine signer may get Err (never Ok(false))
-    let garbage_present = model.assertions().iter().any(|a| matches!(a.subject(), M::Assertion(p, _) if **p == M::Known(3)));
+    let garbage_present = model.assertions().iter().any(|a| matches!(a.subject(), M::Assertion(p, _) if p.digest() == M::Known(3).digest()));
     if garbage_present {
         ctx.class("base-has-bogus-signed-assertion");
     }
@@ -118,15 +118,12 @@ pub fn run(data: &[u8], ctx: &mut Ctx) -> Outcome {
     let n_signers = 1 + src.weighted(&[50, 30, 15, 5]);
     let mut signers: Vec<usize> = Vec::new();
     while signers.len() < n_signers {
-        let i = src.below(pool.sig.len());
-        if !signers.contains(&i) {
-            signers.push(i);
-        } else {
-            let j = (i + 1 + signers.len()) % pool.sig.len();
-            if !signers.contains(&j) {
-                signers.push(j);
-            }
+        // linear probing from the drawn index: always terminates (n_signers <= pool size)
+        let mut i = src.below(pool.sig.len());
+        while signers.contains(&i) {
+            i = (i + 1) % pool.sig.len();
         }
+        signers.push(i);
     }
     let mut signed = e.clone();
     let mut with_md: Vec<Option<Vec<M>>> = Vec::new();
@@ -208,9 +205,18 @@ pub fn run(data: &[u8], ctx: &mut Ctx) -> Outcome {
                     }
                 }
                 if let Some(a) = target {
-                    let what = src.below(2);
-                    let victim = if what == 0 { a.clone() } else { a.subject().as_object().unwrap() };
-                    ctx.class(if what == 0 { "obscure-other:assertion" } else { "obscure-other:object" });
+                    let obj = a.subject().as_object().unwrap();
+                    let has_md = obj.subject().is_wrapped();
+                    let what = if has_md { src.below(4) } else { src.below(2) };
+                    let victim = match what {
+                        0 => a.clone(),
+                        1 => obj.clone(),
+                        // a signature with metadata: only the wrapped metadata envelope (the object's subject) ...
+                        2 => obj.subject(),
+                        // ... or only the outer signature assertion inside the object
+                        _ => obj.assertions_with_predicate(known_values::SIGNED).first().cloned().unwrap_or(obj.clone()),
+                    };
+                    ctx.class(["obscure-other:assertion", "obscure-other:object", "obscure-other:wrapped-metadata", "obscure-other:outer-signature"][what]);
                     let action = match src.below(3) {
                         0 => Obs::Elide,
                         1 => Obs::Encrypt,
